@@ -18,7 +18,7 @@ let step_of tok =
     (match op with
      | "hu" -> SHBurst (i, k)
      | "ho" -> SHOpen i | "hb" -> SHBody i | "hr" -> SHRel i | "ha" | "hf" -> SHAbort i | "hx" -> SHRelAbort i | "hg" -> SHGet i
-     | "wo" -> SWOpen i | "wb" -> SWBad i | "we" -> SWEarly i | "wc" -> SWCall i | "wr" -> SWRel i | "wl" -> SWClose i
+     | "wo" -> SWOpen i | "wb" -> SWBad i | "we" | "w0" -> SWEarly i | "wc" -> SWCall i | "wr" -> SWRel i | "wl" -> SWClose i
      | "wa" | "wf" -> SWAbort i | "wg" -> SWGarbage i | "wx" -> SWCloseAbort i | "wi" -> SWIdle i
      | _ -> failwith ("bad op " ^ op))
   | _ -> failwith ("bad token " ^ tok)
